@@ -378,6 +378,19 @@ func (w *Worker) explore(it item, depth int) {
 			}
 			return
 		case evFail:
+			if st.undecided {
+				// confirm that the path itself is feasible before reporting
+				ss := w.solver
+				r, err := ss.Check(st.pc)
+				if err != nil || r == Unknown {
+					e.res.noteInconclusive("failure " + ev.Fail.ID + " on a path whose feasibility the solver could not decide")
+					return
+				}
+				if r == Unsat {
+					atomic.AddInt64(&e.res.PathsPruned, 1)
+					return
+				}
+			}
 			e.recordFailure(st, ev.Fail)
 			return
 		case evAbort:
